@@ -243,6 +243,7 @@ type Obligation struct {
 	splitReach        []Term
 	splitConds        []Term // branch conditions defined before this obligation (for case splitting on timeout)
 	knownExpectedFail *KnownFinding
+	replay            *replayInfo
 }
 
 type Frame struct {
@@ -302,6 +303,7 @@ type Run struct {
 	condReach []Term
 	firedAnchors map[string]bool
 	factGuard Term
+	topReplay *replayInfo
 	nameCount map[string]int
 	localBoxes []localBox
 	escaping  map[string]bool
